@@ -2015,6 +2015,10 @@ def p_instanceDeclaration(p):
                     # If array type insert list, else insert item 0 from list
                     pprop.value = objs if cprop.is_array else objs[0]
                     pprop.embedded_object = embedded_object_type
+                elif cprop.is_array and isinstance(pval, list):
+                    # An empty array is a value, different from NULL
+                    pprop.value = []
+                    pprop.embedded_object = embedded_object_type
             else:
                 if pval:
                     ival_is_array = isinstance(pval, list)
